@@ -1,5 +1,5 @@
 (** Request dispatch: one request line in, one response line out. *)
-From Cel.Model Require Export Wire Arith Compare Macros.
+From Cel.Model Require Export Wire Arith Compare Macros Parser.
 Open Scope string_scope.
 
 Definition bad (why : string) : sexp := tagged "bad-request" [Atom why].
@@ -74,6 +74,26 @@ Definition handle (req : sexp) : sexp :=
       | Some c', Some ops' =>
           tagged "gets" (map (sexp_of_outcome sexp_of_value) (run_cops c' ops'))
       | _, _ => bad "ctxops"
+      end
+  | SList [Atom "compile"; src] =>
+      match opt_str src with
+      | Some s =>
+          match compile s with
+          | CExpr e => tagged "ok" [sexp_of_expr e]
+          | CReject => Atom "(reject)"
+          | COutOfFuel => Atom "(out-of-fuel)"
+          end
+      | None => bad "compile"
+      end
+  | SList [Atom "evalsrc"; c; src] =>
+      match ctx_of_sexp c, opt_str src with
+      | Some c', Some s =>
+          match compile s with
+          | CExpr e => sexp_of_result (eval c' e)
+          | CReject => Atom "(reject)"
+          | COutOfFuel => Atom "(out-of-fuel)"
+          end
+      | _, _ => bad "evalsrc"
       end
   | SList [Atom "echo"; a] =>
       match value_of_sexp a with
